@@ -53,6 +53,10 @@ type Case struct {
 	// plus a destination of their own, before and after the fan-out under test is built: building a
 	// MultiLevelWriter must not change what an existing one, or a later one, delivers to
 	Decoys bool `json:"decoys,omitempty"`
+	// CloseAt (>0): before event CloseAt the program calls Close on the fan-out (and on every SyncWriter
+	// in it). None of the destinations is an io.Closer, so nothing is closed and every later event is
+	// delivered and reported as before
+	CloseAt int `json:"close_at,omitempty"`
 }
 
 // decoyW belongs to a fan-out nobody writes to.
@@ -197,11 +201,13 @@ func run(c *Case) (msg string, nontrivial bool) {
 		}
 	}
 	sibling()
+	var top io.Writer
 	if c.Single {
-		l = zerolog.New(ws[0])
+		top = ws[0]
 	} else {
-		l = zerolog.New(zerolog.MultiLevelWriter(ws...))
+		top = zerolog.MultiLevelWriter(ws...)
 	}
+	l = zerolog.New(top)
 	sibling()
 	// model state
 	calls := make([]int, len(leaves))
@@ -214,6 +220,16 @@ func run(c *Case) (msg string, nontrivial bool) {
 			for li := range filters {
 				for k := range filters[li] {
 					filters[li][k] = c.RelevelTo
+				}
+			}
+		}
+		if c.CloseAt > 0 && ei == c.CloseAt {
+			if cl, ok := top.(io.Closer); ok {
+				cl.Close()
+			}
+			for _, w := range ws {
+				if cl, ok := w.(io.Closer); ok {
+					cl.Close()
 				}
 			}
 		}
@@ -469,6 +485,9 @@ func TestRapid(t *testing.T) {
 		if ne >= 2 && rapid.IntRange(0, 3).Draw(rt, "relevel") == 0 {
 			c.RelevelAt = rapid.IntRange(1, ne-1).Draw(rt, "relevelat")
 			c.RelevelTo = rapid.SampledFrom([]int{-1, 0, 2, 3, 7}).Draw(rt, "relevelto")
+		}
+		if ne >= 2 && rapid.IntRange(0, 3).Draw(rt, "close") == 0 {
+			c.CloseAt = rapid.IntRange(1, ne-1).Draw(rt, "closeat")
 		}
 		// nested multi writers report short writes of inner destinations as ErrShortWrite too; the
 		// "first failing destination" is in depth-first order, which the flat model reproduces
